@@ -220,7 +220,7 @@ PROPS = {
     "C18": {
         "level": "fault_enumeration",
         "quick_runs": 48, "thorough_runs": 1500, "chunk": 1,
-        "enum": "failj:calls:250,failj:calls:250:sticky=1",
+        "enum": "failj:calls:250,failj:calls:250:sticky=1,failj:calls:250:disk=1",
         "thorough_params": {"pre": 25},
         "nontrivial_stat": "probe.fault_fired",
         "rule": "one sampled history = 2-3 wallets, a short generated chain history, then ONE focus operation (block "
